@@ -426,7 +426,7 @@ def main():
     thorough = ck.tier == 'thorough'
     cases, meta = [], []
     hist = [(k, n, d, [tuple(x) for x in p], ops) for k, n, d, p, ops in CORPUS]
-    nrand = 140 if not thorough else 2500
+    nrand = 140 if not thorough else 1200
     for kind in KINDS:
         for _ in range(nrand):
             nh = rng.choice([0, 0, 1, 2]) if has_holes(kind) else 0
